@@ -66,13 +66,21 @@ func genData(seed, n int) []byte {
 
 // ---- scripted environment -------------------------------------------------
 
+type sentReq struct {
+	P    int   // bytes handed over by the Reads completed before this request
+	Vals []int // every value of the Range header, bytes=<n>- parsed (-2 = unparsable)
+}
+
 type env struct {
-	data  []byte
-	kind  int
-	bare  bool // error responses carry no body (net/http: Body == http.NoBody)
-	reads []rdEv
-	conns []int
-	reqs  []int // -1 = no Range header
+	data      []byte
+	ebody     []byte // what error responses carry when they carry a body
+	kind      int
+	bare      bool // error responses carry no body (net/http: Body == http.NoBody)
+	reads     []rdEv
+	conns     []int
+	reqs      []int // -1 = no Range header
+	delivered int   // bytes handed over by completed Reads (kept by runScripted)
+	sent      []sentReq
 }
 
 type sbody struct {
@@ -126,6 +134,16 @@ func (e *env) RoundTrip(req *http.Request) (*http.Response, error) {
 		off = v
 	}
 	e.reqs = append(e.reqs, off)
+	// the whole header, as the shared Header map holds it at this attempt
+	sr := sentReq{P: e.delivered}
+	for _, h := range req.Header.Values("Range") {
+		v, err := strconv.Atoi(strings.TrimSuffix(strings.TrimPrefix(h, "bytes="), "-"))
+		if err != nil {
+			v = -2
+		}
+		sr.Vals = append(sr.Vals, v)
+	}
+	e.sent = append(e.sent, sr)
 	c := cServe
 	if len(e.conns) > 0 {
 		c = e.conns[0]
@@ -146,6 +164,9 @@ func (e *env) RoundTrip(req *http.Request) (*http.Response, error) {
 		cl := int64(len(body))
 		if unknownLen {
 			cl = -1
+		}
+		if code >= 400 {
+			body = e.ebody
 		}
 		if upto >= 0 && upto < len(body) {
 			body = body[:upto] // clean close: the transport reports EOF here
@@ -196,6 +217,7 @@ func errClass(err error) int {
 }
 
 func runScripted(e *env, bufs []int) (opened bool, outs []obsRead) {
+	e.delivered = 0
 	client := &http.Client{Transport: e}
 	rt := apk.VerifNewRangeRetryTransport(context.Background(), client)
 	req, _ := http.NewRequest(http.MethodGet, "http://scripted.invalid/x", nil)
@@ -211,6 +233,7 @@ func runScripted(e *env, bufs []int) (opened bool, outs []obsRead) {
 	for _, n := range bufs {
 		p := make([]byte, n)
 		k, err := resp.Body.Read(p)
+		e.delivered += k
 		outs = append(outs, obsRead{bytes: append([]byte(nil), p[:k]...), err: errClass(err)})
 	}
 	return true, outs
@@ -246,14 +269,17 @@ func galOuts(os []obsRead) string {
 	}
 	return gal.List(it)
 }
-func galReqs(rs []int) string {
+func galSent(rs []sentReq) string {
 	it := make([]string, len(rs))
 	for i, r := range rs {
-		if r < 0 {
-			it[i] = "None"
-		} else {
-			it[i] = "(Some " + gal.Nat(r) + ")"
+		vs := make([]string, len(r.Vals))
+		for j, v := range r.Vals {
+			if v < 0 {
+				v = 65535 // an unparsable value: bodies of the scripted stage are shorter, so never equal to a progress
+			}
+			vs[j] = gal.Nat(v)
 		}
+		it[i] = gal.Pair(gal.Nat(r.P), gal.List(vs))
 	}
 	return gal.List(it)
 }
@@ -261,6 +287,7 @@ func galReqs(rs []int) string {
 type scase struct {
 	Kind   string `json:"kind"`
 	Bare   bool   `json:"error_responses_without_body"`
+	EBody  []int  `json:"error_response_body"`
 	Seed   int    `json:"data_seed"`
 	Len    int    `json:"data_len"`
 	Reads  []rdEv `json:"reads"`
@@ -270,6 +297,7 @@ type scase struct {
 	Opened bool   `json:"opened"`
 	NReads int    `json:"observed_reads"`
 	Live   bool   `json:"tolerated"`
+	Sent   []sentReq `json:"requests_progress_and_range_values"`
 }
 
 // tolerated mirrors Spec/TransportSpec.v (tolerated) for the distribution
@@ -348,10 +376,15 @@ func scriptedCase(w *gal.Writer, kind, dseed, dlen int, reads []rdEv, conns []in
 }
 
 func scriptedCaseB(w *gal.Writer, kind int, bare bool, dseed, dlen int, reads []rdEv, conns []int, bufs []int) {
-	e := &env{data: genData(dseed, dlen), kind: kind, bare: bare, reads: append([]rdEv(nil), reads...), conns: append([]int(nil), conns...)}
+	// the bytes of the error responses (never the server's own: if they reach the consumer the validator sees it)
+	ebody := make([]byte, (dseed+dlen+len(reads))%4)
+	for i := range ebody {
+		ebody[i] = byte(200 + (dseed+i)%50)
+	}
+	e := &env{data: genData(dseed, dlen), ebody: ebody, kind: kind, bare: bare, reads: append([]rdEv(nil), reads...), conns: append([]int(nil), conns...)}
 	opened, outs := runScripted(e, bufs)
-	term := fmt.Sprintf("{| c_kind := %s; c_bare := %s; c_seed := %s; c_len := %s; c_reads := %s; c_conns := %s; c_bufs := %s; o_opened := %s; o_outs := %s; o_reqs := %s |}",
-		kindNames[kind], gal.Bool(bare), gal.Nat(dseed), gal.Nat(dlen), galReads(reads), galConns(conns), galNats(bufs), gal.Bool(opened), galOuts(outs), galReqs(e.reqs))
+	term := fmt.Sprintf("{| c_kind := %s; c_bare := %s; c_ebody := %s; c_seed := %s; c_len := %s; c_reads := %s; c_conns := %s; c_bufs := %s; o_opened := %s; o_outs := %s; o_sent := %s |}",
+		kindNames[kind], gal.Bool(bare), gal.Bytes(ebody), gal.Nat(dseed), gal.Nat(dlen), galReads(reads), galConns(conns), galNats(bufs), gal.Bool(opened), galOuts(outs), galSent(e.sent))
 	nf := 0
 	for _, r := range reads {
 		if r.Fail {
@@ -370,6 +403,10 @@ func scriptedCaseB(w *gal.Writer, kind int, bare bool, dseed, dlen int, reads []
 			break
 		}
 	}
+	eb := make([]int, len(ebody))
+	for i, b := range ebody {
+		eb[i] = int(b)
+	}
 	live := toleratedGo(dlen, kind, bufs, reads, conns)
 	if live {
 		mixed += "/tolerated"
@@ -379,7 +416,7 @@ func scriptedCaseB(w *gal.Writer, kind int, bare bool, dseed, dlen int, reads []
 	}
 	class := fmt.Sprintf("%s/faults=%d/conn-events=%d%s", kindNames[kind], min(nf, 4), min(len(conns), 3), mixed)
 	w.Add(gal.Case{Term: term, Class: class, Trivial: nf == 0 && len(conns) == 0,
-		Desc: scase{kindNames[kind], bare, dseed, dlen, reads, conns, galConns(conns), bufs, opened, len(outs), live}})
+		Desc: scase{kindNames[kind], bare, eb, dseed, dlen, reads, conns, galConns(conns), bufs, opened, len(outs), live, e.sent}})
 }
 
 func fill(n, v int) []int {
